@@ -48,7 +48,13 @@ Ps == {"a", "b", "c"}
 All == Ps \cup {"own"}
 RB == {"read", "search", "discover", "export"}
 HB == RB \cup {"read_history"}
-WB == HB \cup {"create", "update", "archive", "tombstone", "purge", "manage_retention", "maintain"}
+\* every permission name the engine registers (permission.rs): whatever a session holds, no KIP command reaches the plane
+WB == HB \cup {"project", "read_raw_origin", "create", "update", "derive", "assert", "record_attributed_assertion",
+              "assert_as_actor", "retract_own", "supersede_own", "moderate_assertion", "manage_actor_binding",
+              "bind_canonical_identity", "merge_identity", "maintain", "archive", "quarantine", "tombstone", "import",
+              "share", "manage_retention", "legal_hold", "purge", "declassify", "manage_membership", "manage_grants",
+              "manage_delegation", "delegate", "manage_policy", "manage_trust", "manage_schema", "elevate_authority",
+              "approve_high_risk", "read_audit", "read_governance_history"}
 Interesting == {"read", "search", "discover", "export", "read_history"}
 
 \* real field names: the mask's length enters the choice between two allows
@@ -271,10 +277,10 @@ kase == CaseSeq[ci]
 thePop == PopOf(kase.pop)
 
 \* one record per element, in population order
+\* per element, NOT gated by the `read` gate: SEARCH / EXPORT / HISTORY pass their own gates and then read element by element
 ViewOf(cfg, p) ==
-  LET gate == Permitted(cfg, p, "read", SpaceRes) IN
   [i \in 1..Len(thePop) |->
-     IF gate /\ MayRead(cfg, p, thePop[i])
+     IF MayRead(cfg, p, thePop[i])
      THEN [r |-> TRUE, mask |-> MaskOf(cfg, p, thePop[i])]
      ELSE [r |-> FALSE, mask |-> {}]]
 
